@@ -350,17 +350,17 @@ Theorem C17_restore_reowns :
 Proof. exact restart_reowns_run. Qed.
 Print Assumptions C17_restore_reowns.
 
-(* KNOWN (signature ipoe-restored-halfopen-session-without-claim): /repo's ipoe restore path claims only at
-   the end of setupSessionRestore; a session checkpointed half-established (or whose dataplane restore fails)
-   is put back into the session tables without a claim: it owns nothing after the restart and a PPPoE
-   session then shares its tuple. *)
-Theorem C17_restore_reowns_refuted :
+(* Historical (fixed in /repo d2827a3, signature ipoe-restored-halfopen-session-without-claim): the ipoe restore
+   path claimed only at the end of setupSessionRestore; a session checkpointed half-established (or whose
+   dataplane restore failed) was put back into the session tables without a claim: it owned nothing after the
+   restart and a PPPoE session then shared its tuple. *)
+Theorem C17_restore_reowns_refuted_pre_d2827a3 :
   let w := e2e_run Repaired world0 [EDiscover e2e_k] in
   e2e_snapshot (e2e_restart_skipping Repaired [e2e_k] w) e2e_k = (1%nat, 0%nat, None) /\
   e2e_snapshot (e2e_step Repaired (e2e_restart_skipping Repaired [e2e_k] w) (EPadr e2e_k)) e2e_k = (1%nat, 1%nat, Some proto_pppoe) /\
   e2e_snapshot (e2e_restart w) e2e_k = (1%nat, 0%nat, Some proto_ipoe).
 Proof. exact restart_skipping_witness. Qed.
-Print Assumptions C17_restore_reowns_refuted.
+Print Assumptions C17_restore_reowns_refuted_pre_d2827a3.
 
 (* ---- non-vacuity ---- *)
 Definition k1 : key := mkKey 100 10 [2; 170; 187; 204; 0; 1]%N.
